@@ -1,6 +1,7 @@
 """C06 — buffered descriptor / TCP connection byte stream (DESIGN §4 C06)."""
 from tbxlint.facts import extract, AnalysisBroken, MODULES
 from tbxlint import locks, q, own, rd
+from rules import C06_relay
 
 B = 'tbox::network::BufferedFd'
 N = 'tbox::network::'
@@ -461,6 +462,9 @@ def run(ctx):
     ctx.guard(r5, ctx, prog)
     ctx.guard(r10, ctx, prog)
     ctx.guard(r11, ctx, prog)
+    ctx.guard(C06_relay.r12, ctx, prog)
+    ctx.guard(C06_relay.r13, ctx, prog)
+    ctx.guard(C06_relay.r14, ctx, prog)
     # the send queue and the receive buffer are util::Buffer objects: the byte stream is only in order / lossless if the buffer's
     # window arithmetic is right, so the Buffer rules of C07 are part of this check as well (ids C06.B1..B4)
     from rules import C07
